@@ -651,3 +651,47 @@ package ech
 //@     invariant len(seen) == ycount(0) && !ystopped(0) && seen != nil && forall(k, has(seen, k) ==> seen[k])
 //@   loop 6 "range r.Address"
 //@     invariant len(seen) == ycount(0) && !ystopped(0) && seen != nil && forall(k, has(seen, k) ==> seen[k]) && ycount(0) <= ri6
+
+// ---------------------------------------------------------------------------
+// dial.go
+// ---------------------------------------------------------------------------
+
+// dials(0): number of calls of the user's DialFunc so far.
+//@ ghost dials(k any) int
+
+//@ func Dialer.dialOne returns (conn, err)
+//@   requires d != nil && d.DialFunc != nil && tc != nil
+//@   modifies dials(0), tc.EncryptedClientHelloConfigList
+//@   ensures[F:one-retry-at-most] dials(0) >= old(dials(0)) + 1 && dials(0) <= old(dials(0)) + 2
+//@   ensures[F:config-kept-unless-retried] dials(0) == old(dials(0)) + 1 ==> tc.EncryptedClientHelloConfigList == old(tc.EncryptedClientHelloConfigList)
+//@   at "goto retry" assert[F:retry-with-those-configs] retried && echErr != nil && len(echErr.RetryConfigList) > 0 && tc.EncryptedClientHelloConfigList == echErr.RetryConfigList &&
+//@       dials(0) == entry(dials(0)) + 1
+//@   loop 1 "retry:"
+//@     invariant[F:count] dials(0) == entry(dials(0)) + ite(retried, 1, 0) && (!retried ==> tc.EncryptedClientHelloConfigList == entry(tc.EncryptedClientHelloConfigList))
+//@   param d.DialFunc(c, n, a, cfg) returns (rc, rerr)
+//@     requires[same-target] a == addr && n == network && cfg == tc
+//@     requires[at-most-one-retry] dials(0) <= entry(dials(0)) + 1
+//@     modifies dials(0)
+//@     ensures dials(0) == old(dials(0)) + 1
+
+// Dial: the goroutine bodies are executed one by one from the state at their go statement (gobodies); channels carry no
+// facts, so what is proved is local to each body: how a worker derives the TLS config of an attempt from the target it
+// received, and what the target producer puts into a target.
+//@ func Dialer.Dial returns (conn, err)
+//@   gobodies
+//@   requires d != nil
+//@   modifies dials(0), rpos, closed
+//@   capture "net.SplitHostPort(a)" splitHost = 0
+//@   capture "net.SplitHostPort(a)" splitErr = 2
+//@   callsite "d.dialOne(" requires[F:require-ech] d.RequireECH ==> !isnil(arg3.EncryptedClientHelloConfigList)
+//@   callsite "d.dialOne(" requires[F:caller-ech-kept] old_tc != nil && !isnil(old_tc.EncryptedClientHelloConfigList) ==> arg3.EncryptedClientHelloConfigList == old_tc.EncryptedClientHelloConfigList
+//@   callsite "d.dialOne(" requires[F:caller-server-name-kept] old_tc != nil && old_tc.ServerName != "" ==> arg3.ServerName == old_tc.ServerName
+//@   callsite "d.dialOne(" requires[F:server-name-is-host] (old_tc == nil || old_tc.ServerName == "") ==> arg3.ServerName == target.host
+//@   callsite "d.dialOne(" requires[F:ech-of-this-target] (old_tc == nil || isnil(old_tc.EncryptedClientHelloConfigList)) && len(d.PublicName) == 0 && !isnil(target.resolved.ECH) ==> arg3.EncryptedClientHelloConfigList == target.resolved.ECH
+//@   callsite "d.dialOne(" requires[F:address-of-this-target] cid(arg2) == apString(target.resolved.Address) && arg1 == network
+//@   callsite "d.dialOne(" requires[F:own-config] fresh(arg3) && arg3 != old_tc
+//@   callsite "yield(dialTarget{host" requires[F:target-unchanged] arg0.err == nil && arg0.host == host && arg0.resolved == target
+//@   loop 3 "range numWorkers"
+//@     invariant[frame] tc != nil && tc.ServerName == entry(tc.ServerName) && tc.EncryptedClientHelloConfigList == entry(tc.EncryptedClientHelloConfigList)
+//@   loop 4 "range targetChan"
+//@     invariant[frame] tc != nil && tc.ServerName == entry(tc.ServerName) && tc.EncryptedClientHelloConfigList == entry(tc.EncryptedClientHelloConfigList)
